@@ -752,4 +752,273 @@ example :
       (fun l => l.1 == [88, 45, 77]) = [([88, 45, 77], [51]), ([88, 45, 77], [49]), ([88, 45, 77], [50])] := by
   decide
 
+/-! ### the statements under the names of the task description -/
+
+/-- the regular fields the HTTP/2 / HTTP/3 encoders add themselves. -/
+def ownFieldsH23 (fl : Flavor) (r : FReq) : List KV :=
+  (if shouldSendReqContentLength r.method (actualContentLength fl r) then
+      [⟨sContentLengthL, [Req.BStr.natToDec (actualContentLength fl r).toNat]⟩] else [])
+  ++ (if r.addGzip then [⟨sAcceptEncodingL, [sGzip]⟩] else [])
+  ++ (if didUA r.header then [] else [⟨sUserAgentL, [defaultUserAgent]⟩])
+
+theorem baseRegular_eq (fl : Flavor) (r : FReq) :
+    baseRegular fl r = headerGroups fl r.header ++ ownFieldsH23 fl r := by
+  unfold baseRegular ownFieldsH23
+  simp [List.append_assoc]
+
+/-- fields a protocol forbids (connection-specific names, bookkeeping keys) are OMITTED, and that
+is all that happens: the collected groups are those of the header map without them. -/
+theorem forbidden_omitted (fl : Flavor) (h : Hdr) :
+    headerGroups fl h = headerGroups fl (h.filter fun kv => !isExcluded kv.key) := by
+  unfold headerGroups
+  symm
+  apply flatMap_filter_of_nil
+  intro kv hp
+  have : isExcluded kv.key = true := by simpa using hp
+  simp [this]
+
+/-- **wire_multiset_exact (HTTP/1.1)** = `wire_set_h1`: lines on the wire ≃ writer's own fields ⊎
+caller fields (minus the names the writer handles itself and the bookkeeping keys, minus invalid
+names; values sanitised) ⊎ the transport's extra fields — for every order list and every map
+iteration order. -/
+theorem wire_multiset_exact_h1 (r : WReq) (host : Bytes) (f : Framing) :
+    (linesOf (h1Fields r host f)).Perm
+      (linesOf (ownFieldsH1 r host f) ++ linesOf (callerFields r.header reqWriteExcludeHeader) ++
+        linesOf (callerFields r.extra [])) := wire_set_h1 r host f
+
+/-- **wire_multiset_exact (HTTP/2, HTTP/3)**: fields in the header block ≃ pseudo fields ⊎ the
+groups collected from the caller's map without the forbidden / bookkeeping names ⊎ the encoder's
+own fields — for every header-order list, every pseudo-header-order list, every map order. -/
+theorem wire_multiset_exact_h23 (fl : Flavor) (r : FReq) (fs : List (Bytes × Bytes))
+    (h : fields fl r = .ok fs) :
+    ∃ host path, fieldHost r = .ok host ∧ fieldPath r host = .ok path ∧
+      fs.Perm (wireOf (basePseudo fl r host path) ++
+        (wireOf (headerGroups fl (r.header.filter fun kv => !isExcluded kv.key)) ++
+          wireOf (ownFieldsH23 fl r))) := by
+  obtain ⟨host, path, hh, hp, hperm⟩ := wire_set_h2 fl r fs h
+  refine ⟨host, path, hh, hp, ?_⟩
+  rw [baseRegular_eq, wireOf_append, forbidden_omitted] at hperm
+  exact hperm
+
+/-- **order_respected_all**: on all three stacks, for ANY order list (duplicates, unknown names,
+mixed case) and ANY number of other headers, the listed lines / fields appear in list order;
+likewise the pseudo fields for any pseudo-header order list. -/
+theorem order_respected_all (w : WReq) (host : Bytes) (f : Framing) (fl : Flavor) (r : FReq)
+    (phost ppath : Bytes)
+    (hw : (orderList w.header).isEmpty = false) (hr : ¬ (orderList r.header).isEmpty) :
+    ((linesOf (h1Fields w host f)).filterMap
+      (fun l => lastIndex (orderList w.header) l.1)).Pairwise (· ≤ ·) ∧
+    ((linesOf (regularKVs fl r)).filterMap
+      (fun l => lastIndex (orderList r.header) l.1)).Pairwise (· ≤ ·) ∧
+    ((linesOf (pseudoKVs fl r phost ppath)).filterMap
+      (fun l => lastIndex (pseudoOrderList r.header) l.1)).Pairwise (· ≤ ·) :=
+  ⟨order_respected_lines_h1 w host f hw, order_respected_lines_h23 fl r hr,
+    pseudo_respected_fields fl r phost ppath⟩
+
+/-! ### value order within a name on HTTP/2 -/
+
+theorem fields_eq (fl : Flavor) (r : FReq) (fs : List (Bytes × Bytes)) (h : fields fl r = .ok fs) :
+    ∃ host path, fs = wireOf (pseudoKVs fl r host path ++ regularKVs fl r) := by
+  unfold fields at h
+  cases hh : fieldHost r with
+  | error e => simp [hh, bind, Except.bind] at h
+  | ok host =>
+    cases hp : fieldPath r host with
+    | error e => simp [hh, hp, bind, Except.bind] at h
+    | ok path =>
+      refine ⟨host, path, ?_⟩
+      simp only [hh, hp, bind, Except.bind] at h
+      split at h
+      · simp [throw, throwThe, MonadExceptOf.throw] at h
+      · simp only [pure, Except.pure] at h
+        split at h
+        · split at h
+          · simp [throw, throwThe, MonadExceptOf.throw] at h
+          · simp only [Except.ok.injEq] at h; exact h.symm
+        · simp only [Except.ok.injEq] at h; exact h.symm
+
+theorem filter_wireOf_name (n : Bytes) (l : List KV) :
+    (wireOf l).filter (fun f => f.1 == n) = wireOf (l.filter fun kv => lower kv.key == n) := by
+  induction l with
+  | nil => rfl
+  | cons x xs ih =>
+    have e : ∀ t : List KV, wireOf (x :: t) = wireOf [x] ++ wireOf t := by
+      intro t; simp [wireOf]
+    rw [e, List.filter_append, ih]
+    cases hk : lower x.key == n with
+    | true =>
+      simp only [List.filter_cons, hk, if_true]
+      have hx : (wireOf [x]).filter (fun f => f.1 == n) = wireOf [x] := by
+        apply List.filter_eq_self.mpr
+        intro a ha
+        simp only [wireOf, List.flatMap_cons, List.flatMap_nil, List.append_nil, List.mem_map] at ha
+        obtain ⟨v, _, rfl⟩ := ha
+        exact hk
+      rw [hx]
+      exact (e _).symm
+    | false =>
+      simp only [List.filter_cons, hk, Bool.false_eq_true, if_false]
+      have : (wireOf [x]).filter (fun f => f.1 == n) = [] := by
+        apply List.filter_eq_nil_iff.mpr
+        intro a ha
+        simp only [wireOf, List.flatMap_cons, List.flatMap_nil, List.append_nil, List.mem_map] at ha
+        obtain ⟨v, _, rfl⟩ := ha
+        simp [hk]
+      rw [this]; rfl
+
+theorem headerGroups_h2_none_single (n : Bytes) (hn : ordinary n = true) (x : KV)
+    (hx : (lower x.key == n) = false) :
+    (headerGroups .h2 [x]).filter (fun g => lower g.key == n) = [] := by
+  apply List.filter_eq_nil_iff.mpr
+  intro g hg
+  unfold headerGroups at hg
+  simp only [List.flatMap_cons, List.flatMap_nil, List.append_nil] at hg
+  split at hg
+  · simp at hg
+  · split at hg
+    · split at hg
+      · simp at hg
+      · split at hg
+        · simp at hg
+        · simp at hg; subst hg; simp [hx]
+    · split at hg
+      · simp at hg; subst hg
+        have : (lower sCookieL == n) = false := ordinary_not_special hn (by decide)
+        simp [this]
+      · simp at hg; subst hg; simp [hx]
+
+theorem headerGroups_h2_cons (x : KV) (xs : Hdr) :
+    headerGroups .h2 (x :: xs) = headerGroups .h2 [x] ++ headerGroups .h2 xs := by
+  simp [headerGroups]
+
+theorem headerGroups_h2_none (n : Bytes) (hn : ordinary n = true) (xs : Hdr)
+    (hall : ∀ y ∈ xs, (lower y.key == n) = false) :
+    (headerGroups .h2 xs).filter (fun g => lower g.key == n) = [] := by
+  induction xs with
+  | nil => rfl
+  | cons y ys ih =>
+    rw [headerGroups_h2_cons, List.filter_append,
+      headerGroups_h2_none_single n hn y (hall y (List.mem_cons_self ..)),
+      ih (fun z hz => hall z (List.mem_cons_of_mem _ hz))]
+    rfl
+
+/-- on HTTP/2 a key with an ordinary name keeps its group whole. -/
+theorem headerGroups_h2_filter (n : Bytes) (hn : ordinary n = true) (kv : KV) :
+    ∀ (h : Hdr), (h.map (·.key)).Nodup → kv ∈ h → lower kv.key = n →
+      (∀ kv' ∈ h, lower kv'.key = n → kv' = kv) →
+      (headerGroups .h2 h).filter (fun g => lower g.key == n) = [kv] := by
+  have hself : lower kv.key = n → (headerGroups .h2 [kv]).filter (fun g => lower g.key == n) = [kv] := by
+    intro hk
+    have hsp : special.contains (lower kv.key) = false := by
+      rw [hk]; simp only [ordinary, Bool.and_eq_true, Bool.not_eq_true'] at hn; exact hn.1
+    have hex : isExcluded kv.key = false := by
+      cases hb : isExcluded kv.key with
+      | false => rfl
+      | true => rw [isExcluded_special hb] at hsp; exact absurd hsp (by decide)
+    have hua : equalFold kv.key sUserAgentL = false := by
+      cases hb : equalFold kv.key sUserAgentL with
+      | false => rfl
+      | true =>
+        rw [equalFold_lower hb (by decide)] at hsp; exact absurd hsp (by decide)
+    have hck : equalFold kv.key sCookieL = false := by
+      cases hb : equalFold kv.key sCookieL with
+      | false => rfl
+      | true =>
+        rw [equalFold_lower hb (by decide)] at hsp; exact absurd hsp (by decide)
+    unfold headerGroups
+    simp [hex, hua, hck, hk]
+  intro h
+  induction h with
+  | nil => intro _ hm; simp at hm
+  | cons x xs ih =>
+    intro hnd hm hk huniq
+    simp only [List.map_cons, List.nodup_cons] at hnd
+    rw [headerGroups_h2_cons, List.filter_append]
+    rcases List.mem_cons.mp hm with he | hin
+    · subst he
+      rw [hself hk]
+      have hall : ∀ y ∈ xs, (lower y.key == n) = false := by
+        intro y hy
+        cases hb : lower y.key == n with
+        | false => rfl
+        | true =>
+          have hy2 : y = kv := huniq y (List.mem_cons_of_mem _ hy) (by simpa using hb)
+          exact absurd (hy2 ▸ List.mem_map_of_mem (f := (·.key)) hy) hnd.1
+      rw [headerGroups_h2_none n hn xs hall]
+      rfl
+    · have hx : (lower x.key == n) = false := by
+        cases hb : lower x.key == n with
+        | false => rfl
+        | true =>
+          have hx2 : x = kv := huniq x (List.mem_cons_self ..) (by simpa using hb)
+          exact absurd (hx2 ▸ List.mem_map_of_mem (f := (·.key)) hin) hnd.1
+      rw [headerGroups_h2_none_single n hn x hx,
+        ih hnd.2 hin hk (fun kv' hkv' => huniq kv' (List.mem_cons_of_mem _ hkv'))]
+      rfl
+
+/-- **Multi-valued headers on HTTP/2**: for a key with an ordinary name that has a single spelling
+in the header map, the fields of that name in the header block are — in arrival order — the
+caller's values in the caller's order, whatever the two order lists do. -/
+theorem value_order_h2 (r : FReq) (fs : List (Bytes × Bytes)) (h : fields .h2 r = .ok fs)
+    (kv : KV) (n : Bytes) (hn : ordinary n = true) (hnd : (r.header.map (·.key)).Nodup)
+    (hm : kv ∈ r.header) (hk : lower kv.key = n)
+    (huniq : ∀ kv' ∈ r.header, lower kv'.key = n → kv' = kv) :
+    fs.filter (fun f => f.1 == n) = kv.values.map fun v => (n, v) := by
+  obtain ⟨host, path, rfl⟩ := fields_eq .h2 r fs h
+  rw [filter_wireOf_name]
+  have hperm : (pseudoKVs .h2 r host path ++ regularKVs .h2 r).Perm
+      (basePseudo .h2 r host path ++ (headerGroups .h2 r.header ++ ownFieldsH23 .h2 r)) := by
+    rw [← baseRegular_eq]
+    exact List.Perm.append (pseudo_order .h2 r host path).1 (header_order_h2 .h2 r).1
+  have hf := hperm.filter (fun g => lower g.key == n)
+  have hrhs : (basePseudo .h2 r host path ++ (headerGroups .h2 r.header ++ ownFieldsH23 .h2 r)).filter
+      (fun g => lower g.key == n) = [kv] := by
+    rw [List.filter_append, List.filter_append, headerGroups_h2_filter n hn kv r.header hnd hm hk huniq]
+    have h1 : (basePseudo .h2 r host path).filter (fun g => lower g.key == n) = [] := by
+      apply List.filter_eq_nil_iff.mpr
+      intro g hg hgn
+      have hcolon : g.key.head? = some 58 := by
+        unfold basePseudo at hg
+        simp only [List.mem_append, List.mem_cons] at hg
+        rcases hg with (hg | hg | hg) | hg
+        · subst hg; rfl
+        · subst hg; rfl
+        · simp at hg
+        · split at hg
+          · simp at hg
+          · simp at hg
+            rcases hg with hg | hg <;> (subst hg; rfl)
+      have hl : (lower g.key).head? = some 58 := by
+        cases hgk : g.key with
+        | nil => rw [hgk] at hcolon; simp at hcolon
+        | cons c t =>
+          rw [hgk] at hcolon
+          have : c = 58 := by simpa using hcolon
+          subst this; rfl
+      have : lower g.key = n := by simpa using hgn
+      rw [this] at hl
+      simp [ordinary, hl] at hn
+    have h3 : (ownFieldsH23 .h2 r).filter (fun g => lower g.key == n) = [] := by
+      apply List.filter_eq_nil_iff.mpr
+      intro g hg
+      unfold ownFieldsH23 at hg
+      simp only [List.mem_append] at hg
+      have hsp : special.contains (lower g.key) = true := by
+        rcases hg with (hg | hg) | hg
+        · rw [mem_ite_l hg]; exact (by decide : special.contains (lower sContentLengthL) = true)
+        · rw [mem_ite_l hg]; exact (by decide : special.contains (lower sAcceptEncodingL) = true)
+        · rw [mem_ite_r hg]; exact (by decide : special.contains (lower sUserAgentL) = true)
+      simp [ordinary_not_special hn hsp]
+    rw [h1, h3]; rfl
+  rw [hrhs] at hf
+  rw [List.perm_singleton.mp hf]
+  simp [wireOf, hk]
+
+example :
+    ((fields .h2 { method := [71, 69, 84], url := { scheme := [104], host := [104], path := [47] }, header :=
+        [⟨[88, 45, 77], [[51], [49], [50]]⟩, ⟨[88, 45, 65], [[57]]⟩,
+         ⟨headerOrderKey, [[120, 45, 97], [120, 45, 109]]⟩] }).toOption.map
+      (·.filter (fun f => f.1 == [120, 45, 109]))) =
+      some [([120, 45, 109], [51]), ([120, 45, 109], [49]), ([120, 45, 109], [50])] := by decide
+
 end Req.Props.C16Wire
